@@ -3,7 +3,10 @@
 use crate::dag::{InternalSharing, PostOrderIterItem};
 use crate::jet::{Jet, JetEnvironment};
 use crate::types::{self, arrow::Arrow};
-use crate::{encode, BitIter, BitWriter, Cmr, FailEntropy, FinalizeError, RedeemNode, Value, Word};
+use crate::{
+    encode, BitCollector, BitIter, BitWriter, Cmr, FailEntropy, FinalizeError, RedeemNode, Value,
+    Word,
+};
 
 use std::io;
 use std::marker::PhantomData;
@@ -140,7 +143,28 @@ impl<'brand> ConstructNode<'brand> {
                 wit: &Option<Value>,
             ) -> Result<Value, Self::Error> {
                 if let Some(ref wit) = wit {
-                    Ok(wit.shallow_clone())
+                    // Every witness of a redeem node must have the node's target type.
+                    // Everything downstream (IHR, encoding, execution, pruning) relies on it.
+                    let ty = data
+                        .node
+                        .arrow()
+                        .target
+                        .finalize()
+                        .map_err(FinalizeError::Type)?;
+                    if wit.is_of_type(&ty) {
+                        return Ok(wit.shallow_clone());
+                    }
+                    // A value of another type is accepted only if its bits are exactly
+                    // an encoding of a value of the node's type; it is re-read at that type.
+                    let (bytes, bit_len) = wit.iter_compact().collect_bits();
+                    let mut bits = BitIter::from(bytes.into_iter());
+                    match Value::from_compact_bits(&mut bits, &ty) {
+                        Ok(retyped) if bits.n_total_read() == bit_len => Ok(retyped),
+                        _ => Err(FinalizeError::WitnessTypeMismatch {
+                            expected: ty,
+                            got: Arc::new(wit.ty().clone()),
+                        }),
+                    }
                 } else {
                     // We insert a zero value into unpopulated witness nodes,
                     // assuming that this node will later be pruned out of the program.
